@@ -61,12 +61,11 @@ class GatedWriter(FakeWriter):
                 f.set_exception(ConnectionResetError('connection lost (fake)'))
 
     def close(self):
+        # a graceful close of one side (FIN) does not wake the other side's drain waiters
         was = self._closed
         super().close()
         if not was:
             self._wake_drain_closed()
-            if self.peer is not None and isinstance(self.peer, GatedWriter):
-                self.peer._wake_drain_closed()
 
     def reset(self):
         was = self._closed
@@ -204,19 +203,32 @@ def pending_timers(loop) -> list:
     return out
 
 
-def fire_timer(loop, conn, kind: str) -> bool:
+def fire_timer(loop, conn, kind: str, task=None) -> bool:
     """Make the pending `async_timeout` of `conn` of the given kind due now.
     kind: 'connect' (DataConnection.connect), 'read' (DataConnection._read), 'send' (DataConnection._send),
     'close' (DataConnection.disconnect waiting for wait_closed)."""
-    fn = {'connect': 'connect', 'read': '_read', 'send': '_send', 'close': 'disconnect'}[kind]
-    for tm, task, names, selfs in pending_timers(loop):
+    tm = find_timer(loop, conn, kind, task)
+    if tm is None:
+        return False
+    tm.reschedule(loop.time())
+    return True
+
+
+_TIMER_FN = {'connect': 'connect', '_read': 'read', '_send': 'send', 'disconnect': 'close'}
+
+
+def find_timer(loop, conn, kind: str, task=None):
+    """The pending timer of `conn` whose innermost connection frame is the one `kind` names."""
+    for tm, t, names, selfs in pending_timers(loop):
+        if task is not None and t is not task:
+            continue
+        inner = None
         for n, s in zip(names, selfs):
-            if s is conn and n == fn:
-                if kind == 'close' and ('_read' in names[names.index(n) + 1:] or '_send' in names[names.index(n) + 1:]):
-                    continue
-                tm.reschedule(loop.time())
-                return True
-    return False
+            if s is conn and n in _TIMER_FN:
+                inner = _TIMER_FN[n]
+        if inner == kind:
+            return tm
+    return None
 
 
 def fire_wait_timeout(loop, task: asyncio.Task, fn_name: str) -> bool:
@@ -297,4 +309,6 @@ async def start_network(loop, net_fake: GatedNet, settings, server=None):
     network.server_connection.start_reader_task()
     rr, rw = net_fake.rem[SERVER_ADDR]
     srv_task = asyncio.ensure_future(server.handler(rr, rw))
+    from vlib.simloop import settle
+    await settle()
     return bus, network, server, srv_task
